@@ -1688,3 +1688,87 @@ func init() {
 	intrinsicTab["(golang.org/x/text/unicode/norm.Form).AppendString"] = normAppendString
 	intrinsicTab["(golang.org/x/text/unicode/norm.Form).Append"] = normAppendString
 }
+
+// ---------------------------------------------------------------- strings.Builder
+
+func (x *Exec) builderKey(v Value) string {
+	p := v.(Ptr)
+	if p.Obj == nil {
+		x.obligation(tFalse, "nil *strings.Builder")
+	}
+	return fmt.Sprintf("builder:%d%s", p.Obj.ID, pathKey(p.Path))
+}
+
+func (x *Exec) builderGet(v Value) Value {
+	if s, ok := x.builders[x.builderKey(v)]; ok {
+		return s
+	}
+	return ""
+}
+
+func (x *Exec) builderSet(v Value, s Value) {
+	if x.builders == nil {
+		x.builders = map[string]Value{}
+	}
+	x.builders[x.builderKey(v)] = s
+}
+
+func init() {
+	intrinsicTab["(*strings.Builder).WriteString"] = func(x *Exec, fn *ssa.Function, a []Value) Value {
+		x.builderSet(a[0], x.strConcat(x.builderGet(a[0]), a[1]))
+		return TupleV{x.strLen(a[1]), IfaceV{}}
+	}
+	intrinsicTab["(*strings.Builder).WriteByte"] = func(x *Exec, fn *ssa.Function, a []Value) Value {
+		b := asTerm(a[1])
+		if !b.IsConst() {
+			panic(unsupported("strings.Builder.WriteByte of a symbolic byte"))
+		}
+		x.builderSet(a[0], x.strConcat(x.builderGet(a[0]), string([]byte{byte(b.Uint64())})))
+		return IfaceV{}
+	}
+	intrinsicTab["(*strings.Builder).WriteRune"] = func(x *Exec, fn *ssa.Function, a []Value) Value {
+		r := asTerm(a[1])
+		if !r.IsConst() {
+			panic(unsupported("strings.Builder.WriteRune of a symbolic rune"))
+		}
+		s := string(rune(r.Int64()))
+		x.builderSet(a[0], x.strConcat(x.builderGet(a[0]), s))
+		return TupleV{BVi(int64(len(s)), 64), IfaceV{}}
+	}
+	intrinsicTab["(*strings.Builder).Write"] = func(x *Exec, fn *ssa.Function, a []Value) Value {
+		s := x.bytesToString(a[1].(SliceV))
+		x.builderSet(a[0], x.strConcat(x.builderGet(a[0]), s))
+		return TupleV{a[1].(SliceV).Len, IfaceV{}}
+	}
+	intrinsicTab["(*strings.Builder).String"] = func(x *Exec, fn *ssa.Function, a []Value) Value { return x.builderGet(a[0]) }
+	intrinsicTab["(*strings.Builder).Len"] = func(x *Exec, fn *ssa.Function, a []Value) Value { return x.strLen(x.builderGet(a[0])) }
+	intrinsicTab["(*strings.Builder).Grow"] = func(x *Exec, fn *ssa.Function, a []Value) Value {
+		x.obligation(Not(Slt(asTerm(a[1]), BVi(0, 64))), "strings.Builder.Grow: negative count")
+		return nil
+	}
+	intrinsicTab["(*strings.Builder).Reset"] = func(x *Exec, fn *ssa.Function, a []Value) Value {
+		x.builderSet(a[0], "")
+		return nil
+	}
+	intrinsicTab["strings.Count"] = func(x *Exec, fn *ssa.Function, a []Value) Value {
+		sep, ok := a[1].(string)
+		if !ok {
+			panic(unsupported("strings.Count with symbolic separator"))
+		}
+		if s, ok := a[0].(string); ok {
+			return BVi(int64(strings.Count(s, sep)), 64)
+		}
+		as := toAtoms(a[0])
+		sa := atomsOfString(sep)
+		if !simpleAtoms(as) || len(sa) != 1 || sa[0].K != ASep {
+			panic(unsupported("strings.Count on opaque text or of a non-whitespace pattern"))
+		}
+		n := 0
+		for _, at := range as {
+			if at.K == ASep && at.S == sep {
+				n++
+			}
+		}
+		return BVi(int64(n), 64)
+	}
+}
